@@ -271,10 +271,35 @@ def specs(r):
             if v[3] == 0 and (out.get("stops") or {}).get(k) is None and not any(rec["op"] == "exec" and rec["args"].get("force") for rec in out["records"]):
                 qs.append((f"spec eq {(out.get('reschedulings') or {}).get(k, 0)} {v[0]}",
                            {"what": "every execution moves the due time exactly once (reschedulings = executions)", "key": k}))
+    qs += final_due_specs(scn, out)
     q = lin_query(scn, out)
     if q is not None:
         qs.append((q, {"what": "registry_linearizable", "records": [(x["thread"], x["op"], x["args"], list(x["result"]), x["inv"], x["res"]) for x in sorted(out["records"], key=lambda z: z["inv"])],
                        "init": out["init"], "final": out["final"]}))
+    return qs
+
+
+def final_due_specs(scn, out):
+    """drift-free under concurrency too: when all calls have returned, an unlimited, non-skipping job that was executed n times
+    is planned for the (n+1)-th occurrence after its reference - no run without its rescheduling, no rescheduling without a run"""
+    from . import c08
+    qs = []
+    if out.get("deadlock") or out.get("error"):
+        return qs
+    for k, v in (out.get("jobs") or {}).items():
+        k = int(k)
+        if k >= len(scn["jobs"]) or v[3] != 0 or (out.get("stops") or {}).get(k) is not None:
+            continue
+        j = scn["jobs"][k]
+        if j.get("skip") or not j.get("delay", True):
+            continue
+        ref = (j["start"][0] - (j["start"][1] or 0)) if j.get("start") else scn["clock0"]
+        info = {"what": "after n executions the job is planned for its (n+1)-th occurrence (every run rescheduled exactly once)", "key": k, "executions": v[0], "due": v[4]}
+        if j["call"] == 0:
+            if j["timings"][0][1] > 0:
+                qs.append((f"spec cadence 1 {ref} {j['timings'][0][1]} {v[0] + 1} {v[4]}", info))
+        elif j["call"] in (1, 2, 3, 4):
+            qs.append((f"spec iterdue {c08.tms_tokens(j)} {ref} {v[0]} {v[4]}", info))
     return qs
 
 
